@@ -736,6 +736,13 @@ def _any(run, a, k):
         if all(isinstance(t, bool) for t in ts):
             return any(ts)
         return z3.Or(*[to_z3(t) for t in ts])
+    if isinstance(it, SSeq):
+        # any(p(x) for x in seq) over a symbolic-length sequence: a boolean DEFINED by  b <=> exists k in [0, n): p(seq[k])
+        kq = z3.Int(f"any_k!{next(run.counter)}")
+        b = run.fresh_bool("any")
+        body = to_z3(ops.truth_term(run, it.at(kq)))
+        run.define(b == z3.Exists([kq], z3.And(kq >= 0, kq < to_z3(it.length), body)), "builtin any over a sequence (definition)")
+        return b
     raise Undecided("any over symbolic")
 
 
